@@ -1,5 +1,7 @@
 import SafeNet.Proofs.Register
 import SafeNet.Proofs.MerkleReg
+import SafeNet.Model.ClientRegister
+import SafeNet.Model.RegisterDigest
 /-!
 # C06 — register replicas converge and accept only authorised writes
 
@@ -265,6 +267,41 @@ theorem reach_all_valid {r : SReg} (h : Reach r) :
     split at hm
     · cases hm
     · injection hm with h; subst h; exact ih.1
+
+/-! ### The two unverified public entry points, as the tree calls them
+
+`SignedRegister::merge` and `SignedRegister::new(.., ops)` check no operation. `rs2lean` lists every call of
+either outside ant-registers (`Gen.Register.mergeCallSites`, `signedNewCallSites`) with whether the call has the
+safe shape: each register handed to `merge` passed `verify()` first; `new` is given the empty op set. -/
+
+/-- Every production call of `merge` verifies the registers it merges first. -/
+theorem merge_call_sites_verify_first : mergeCallSites.all (·.2) = true := by decide
+
+/-- Every production call of `SignedRegister::new` starts from the empty op set (`Reach.init`). -/
+theorem signed_new_call_sites_empty : signedNewCallSites.all (·.2) = true := by decide
+
+/-- `merge` of a register that passed `verify` is `verified_merge` of it. -/
+theorem merge_of_verified_eq (r o : SReg) (hv : verify o = .ok ()) : merge r o = verifiedMerge r o := by
+  unfold merge verifiedMerge
+  simp [mergeChecksBase, vmergeChecksBase, vmergeVerifiesOther, hv]
+
+/-- **`Reach` is closed under `merge` as it is called** (verify first, then merge): the call shape of
+`mergeCallSites` adds no way into a replica beyond `verified_merge`. -/
+theorem reach_merge_of_verified {r o r' : SReg} (hr : Reach r) (hv : verify o = .ok ())
+    (hm : merge r o = .ok r') : Reach r' :=
+  Reach.vmerge hr (by rw [← merge_of_verified_eq r o hv]; exact hm)
+
+/-- …and without that precondition it is not: `merge` imports a forged op (why the call-site table matters). -/
+theorem merge_unverified_imports_invalid_witness :
+    let b : Base := { addr := 1, owner := 1, perms := .writers [1] }
+    let bad : Op := { addr := 1, node := 9, children := [], size := 1, source := 2, sig := 7, sigOk := false }
+    let r : SReg := { base := b, ownerSigOk := true, ops := [] }
+    let o : SReg := { base := b, ownerSigOk := true, ops := [bad] }
+    (∃ r', merge r o = .ok r' ∧ bad ∈ r'.ops) ∧ ¬ Valid b bad := by
+  refine ⟨⟨_, rfl, by simp [unionOps, insertOp]⟩, ?_⟩
+  intro h
+  have := h.2.1
+  simp [Perms.canWrite] at this
 
 /-- **Reachable ⇒ verifiable** (within the entry limit): any state a replica reaches through accepted
 operations and verified merges, holding at most `MAX_REG_NUM_ENTRIES` ops, passes `verify` everywhere. -/
@@ -650,6 +687,136 @@ example :
     let o3 : SafeNet.Register.Op := { o1 with node := 3, children := [2] }
     read (crdtOf [o1, o2, o3]) = [3] ∧ read (crdtOf [o3, o2, o1]) = [3] := by decide
 
+/-! ## The client's two views of one register (autonomi `Register { signed_reg, crdt_reg }`)
+
+`values()` reads the CRDT half; `register_create` / `register_update` serialise, upload and pay for the signed half.
+`write_atop` is the only production caller of `add_op`. -/
+
+open SafeNet.ClientRegister in
+/-- Client registers as the client builds them: `Register::new`, a fetched register (`register_get`), and any number
+of `write_atop`s of any op (any entry, any signing key). -/
+inductive ClientReach : CReg → Prop
+  | new (b : SafeNet.Register.Base) : ClientReach (CReg.empty b)
+  | fetched (s : SafeNet.Register.SReg) : ClientReach (ofSigned s)
+  | write {c : CReg} (op : SafeNet.Register.Op) : ClientReach c →
+      ClientReach (writeOpWith SafeNet.Gen.Register.clientWritePropagates c op).1
+
+open SafeNet.ClientRegister in
+theorem nodeOf_eq_opNode : nodeOf = opNode := rfl
+
+open SafeNet.ClientRegister in
+theorem addOp_ops {r r' : SafeNet.Register.SReg} {op : SafeNet.Register.Op}
+    (h : SafeNet.Register.addOp r op = .ok r') : r'.ops = SafeNet.Register.insertOp r.ops op := by
+  unfold SafeNet.Register.addOp at h
+  split at h; · cases h
+  split at h; · cases h
+  split at h
+  · cases h
+  · injection h with h; subst h; rfl
+
+open SafeNet.ClientRegister in
+/-- the CRDT half has received exactly the nodes of the ops the signed half holds -/
+theorem client_reach_nodes {c : CReg} (h : ClientReach c) :
+    ∃ R, MerkleReg.Reach R c.crdt ∧ ∀ n, n ∈ R ↔ n ∈ c.signed.ops.map opNode := by
+  induction h with
+  | new b => exact ⟨[], MerkleReg.Reach.init, by simp [CReg.empty]⟩
+  | fetched s =>
+    refine ⟨(s.ops.map opNode).reverse ++ [], MerkleReg.reach_foldl _ MerkleReg.Reach.init, ?_⟩
+    intro n; simp [ofSigned]
+  | write op _ ih =>
+    obtain ⟨R, hr, hm⟩ := ih
+    rename_i c _
+    unfold writeOpWith
+    have hp : SafeNet.Gen.Register.clientWritePropagates = true := by decide
+    cases ha : SafeNet.Register.addOp c.signed op with
+    | ok s' =>
+      refine ⟨opNode op :: R, MerkleReg.Reach.apply _ hr, ?_⟩
+      intro n
+      simp only [List.mem_cons, hm, addOp_ops ha, List.mem_map, SafeNet.Register.mem_insertOp]
+      constructor
+      · rintro (rfl | ⟨x, hx, rfl⟩)
+        · exact ⟨op, Or.inr rfl, rfl⟩
+        · exact ⟨x, Or.inl hx, rfl⟩
+      · rintro ⟨x, hx | rfl, rfl⟩
+        · exact Or.inr ⟨x, hx, rfl⟩
+        · exact Or.inl rfl
+    | error e =>
+      simp only [hp, ↓reduceIte]
+      exact ⟨R, hr, hm⟩
+
+open SafeNet.ClientRegister in
+/-- **The client's two views agree.** Whatever was written through `write_atop` — accepted or refused (entry over
+`MAX_REG_ENTRY_SIZE`, signer outside the writers, entry cap reached) — the CRDT half that `values()` reads is the
+CRDT of the op set of the signed half that is uploaded: same dag, same orphans, same current values. -/
+theorem client_register_views_agree {c : CReg} (h : ClientReach c) (hc : NodeConsistent c.signed.ops) :
+    StateEquiv c.crdt (crdtOf c.signed.ops) ∧ ∀ v, v ∈ read c.crdt ↔ v ∈ read (crdtOf c.signed.ops) := by
+  obtain ⟨R, hr, hm⟩ := client_reach_nodes h
+  have hR : ∀ n ∈ R, ∀ m ∈ R, n.hash = m.hash → n = m := by
+    intro n hn m hm' hnm
+    obtain ⟨x, hx, ex⟩ := List.mem_map.1 ((hm n).1 hn)
+    obtain ⟨y, hy, ey⟩ := List.mem_map.1 ((hm m).1 hm')
+    subst ex; subst ey
+    simp only [opNode] at hnm ⊢
+    rw [hnm, hc x hx y hy hnm]
+  have r₂ : MerkleReg.Reach ((c.signed.ops.map nodeOf).reverse ++ []) (crdtOf c.signed.ops) :=
+    MerkleReg.reach_foldl _ MerkleReg.Reach.init
+  exact crdt_reachable_converge hr r₂ (fun n => by rw [hm n, nodeOf_eq_opNode]; simp) hR
+
+open SafeNet.ClientRegister in
+/-- A refused write changes neither half and is reported; an accepted one is held by the signed half. -/
+theorem client_write_outcome (c : CReg) (op : SafeNet.Register.Op) :
+    (∀ e, (writeOpWith SafeNet.Gen.Register.clientWritePropagates c op).2 = .error e →
+        (writeOpWith SafeNet.Gen.Register.clientWritePropagates c op).1 = c ∧ SafeNet.Register.addOp c.signed op = .error e) ∧
+    ((writeOpWith SafeNet.Gen.Register.clientWritePropagates c op).2 = .ok () →
+        op ∈ (writeOpWith SafeNet.Gen.Register.clientWritePropagates c op).1.signed.ops) := by
+  have hp : SafeNet.Gen.Register.clientWritePropagates = true := by decide
+  unfold writeOpWith
+  cases ha : SafeNet.Register.addOp c.signed op with
+  | ok s' =>
+    refine ⟨fun e h => (nomatch h), fun _ => ?_⟩
+    simp [addOp_ops ha, SafeNet.Register.mem_insertOp]
+  | error e =>
+    simp only [hp, ↓reduceIte]
+    refine ⟨fun e' h => ?_, fun h => (nomatch h)⟩
+    injection h with h
+    subst h
+    simp
+
+open SafeNet.ClientRegister in
+/-- Witness for the shape before the repair (`let _ = self.signed_reg.add_op(op)` after the entry was applied to the
+CRDT half): key 2 is not a writer; `write_atop` returns Ok, `values()` shows entry 7, the signed register that
+`register_update` uploads (and pays for) holds nothing. -/
+theorem client_views_diverge_witness :
+    let c := CReg.empty (newBase 1 1 (.writers []))
+    let r := writeOpWith false c (mkOp c 7 16 2)
+    r.2 = .ok () ∧ read r.1.crdt = [7] ∧ r.1.signed.ops = [] ∧ read (crdtOf r.1.signed.ops) = [] := by
+  refine ⟨rfl, by decide, rfl, by decide⟩
+
+/-! ## What is signed: a platform-dependent 64-bit digest (a limit of the code, stated — not a theorem about validity)
+
+`RegisterOp::new` signs `DefaultHasher` (unkeyed SipHash-1-3, 64 bit) of the stream below, exported with
+`to_ne_bytes`. The model's one-Boolean-per-op signature treats that digest as injective and the same on every
+platform; neither holds: -/
+
+open SafeNet.RegisterDigest in
+/-- The stream hashed on a 32-bit target is never the stream hashed on a 64-bit target, whatever the op: four
+`usize` length prefixes of 4 resp. 8 bytes. An op signed by a wasm32 client carries a signature over a different
+digest than the one a 64-bit node recomputes. -/
+theorem digest_layout_width_dependent_witness (l₁ l₂ : Bool) (m o n s : List Nat) :
+    digestInput 4 l₁ m o n s ≠ digestInput 8 l₂ m o n s := by
+  intro h
+  have hl := congrArg List.length h
+  have u : ∀ w l k, (usizeBytes w l k).length = w := by
+    intro w l k; unfold usizeBytes; cases l <;> simp
+  simp only [digestInput, sliceHash, List.length_append, u] at hl
+  omega
+
+open SafeNet.RegisterDigest in
+/-- …and on one width the byte order of the target shows in the prefixes (32 = `20 00 00 00 00 00 00 00` vs
+`00 00 00 00 00 00 00 20`). -/
+theorem digest_layout_endian_dependent_witness :
+    digestInput 8 true [1] [2] [3] [4] ≠ digestInput 8 false [1] [2] [3] [4] := by decide
+
 /-! ## Non-vacuity (CRDT part) -/
 
 def n1 : Node := { hash := 1, children := [] }
@@ -693,3 +860,12 @@ end SafeNet.Props.C06
 #print axioms SafeNet.Props.C06.same_ops_same_read
 #print axioms SafeNet.Props.C06.same_deliveries_same_values_partial
 #print axioms SafeNet.Props.C06.merge_comm_same_read
+#print axioms SafeNet.Props.C06.digest_layout_width_dependent_witness
+#print axioms SafeNet.Props.C06.digest_layout_endian_dependent_witness
+#print axioms SafeNet.Props.C06.client_register_views_agree
+#print axioms SafeNet.Props.C06.client_write_outcome
+#print axioms SafeNet.Props.C06.client_views_diverge_witness
+#print axioms SafeNet.Props.C06.merge_call_sites_verify_first
+#print axioms SafeNet.Props.C06.signed_new_call_sites_empty
+#print axioms SafeNet.Props.C06.reach_merge_of_verified
+#print axioms SafeNet.Props.C06.merge_unverified_imports_invalid_witness
